@@ -29,12 +29,14 @@ import attrs
 import common
 
 ID = "C13"
-RULE = ("cases = random argument trees (attrs instances of 13 classes at every position -- top level, field value, "
+RULE = ("cases = random argument trees (attrs instances of 19 classes at every position -- top level, field value, "
         "list / tuple / set member, dict key / value --: decorated classes incl. inherited / private / init=False / "
         "slotted / field-less / hashable ones, and classes that are attrs classes only through the MRO: a plain "
         "behaviour-only subclass, a plain dict class over a slotted attrs class, a diamond with plain classes two levels "
         "deep, an attrs subclass of a plain subclass, a slotted attrs class over a plain class over a slotted one, a "
-        "plain subclass of a hashable class; list, tuple, namedtuple of 0-3 fields, set, frozenset, dict, OrderedDict, "
+        "plain subclass of a hashable class; and attrs classes that are ALSO builtin containers -- subclasses of list, "
+        "dict, set, tuple (an unhashable and a hashable one), OrderedDict -- carrying members of their own (harness-only "
+        "`content`, must be left alone) at every position; list, tuple, namedtuple of 0-3 fields, set, frozenset, dict, OrderedDict, "
         "int / str / None and opaque objects that must be handed through as they are at every position but set "
         "membership: attrs class objects, other class objects, objects with a catch-all __getattr__, modules, functions, "
         "object()) to depth 4 (quick) or 5 (thorough), plus targeted streams (namedtuples under retain, "
@@ -84,7 +86,8 @@ LEVEL_TEXT = (
     "unrepaired code, kept in Proofs/C13Old.lean, fails the specification on each), "
     "C13_sites_agree (asdict's own branches = _asdict_anything: the F10 regression as a theorem), "
     "C13_other_objects_untouched (class objects, proxies, modules, functions pass through at every position), "
-    "C13_instance_by_fields (an instance is converted by its field list = has(type(v)) through the MRO, whatever its "
+    "C13_attrs_instance_first (the classification asks has(type(v)) before the container tests at every site: an "
+    "attrs instance that is also a list / dict / set / tuple is converted by its fields), C13_instance_by_fields (an instance is converted by its field list = has(type(v)) through the MRO, whatever its "
     "class, at both sites and in astuple), C13_keys / "
     "C13_keys_nested, C13_recurse_off_identity, C13_no_instances_left, C13_container_shapes(+_field), "
     "C13_fault_propagates (an exception raised by any callback makes the call raise it: nothing swallowed, no partial "
@@ -139,9 +142,19 @@ DEFS = [
     ("AD", (7,), "attrs", [("w", {})], {}, {}),                      # attrs subclass of a plain subclass of an attrs class
     ("HP", (5,), "plain", None, {}, {}),                             # plain subclass of a hashable attrs class
     ("SD", (8,), "slots", [("u", {})], {}, {}),                      # slotted attrs class over a plain dict class over a slotted one
+    # attrs classes that are ALSO builtin containers: they are attrs instances first, at every site
+    ("BL", (list,), "attrs", [("label", {})], {}, {}),
+    ("RD", (dict,), "attrs", [("owner", {})], {}, {}),
+    ("TS", (set,), "attrs", [("source", {})], {}, {}),
+    ("TT", (tuple,), "attrs", [("tag", {})], {}, {}),
+    ("HT", (tuple,), "attrs", [("tag", {})], {"eq": False},           # hashable (identity): fit for keys and sets
+     {"__hash__": _hv_hash, "__eq__": lambda self, other: self is other}),
+    ("RO", (collections.OrderedDict,), "attrs", [("owner", {}), ("x", {})], {}, {}),
 ]
 NCLS = len(DEFS)
-HASHABLE_CLS = {5, 6, 11}
+HASHABLE_CLS = {5, 6, 11, 17}
+# class id -> the builtin container it derives from; such instances carry a harness-only "content" (scalars)
+CONTAINER_BASE = {13: list, 14: dict, 15: set, 16: tuple, 17: tuple, 18: dict}
 NOT_IN_PLACE = {3, 12}      # slotted classes are new class objects: they cannot be decorated in place later
 
 
@@ -420,7 +433,26 @@ def build(node, reg, fam=FAMILY0):
                 kw[f["name"].lstrip("_")] = v
             else:
                 later.append((f["name"], v))
-        obj = cls.__new__(cls) if raw else cls(**kw)
+        cbase = CONTAINER_BASE.get(d["cls"])
+        if cbase is None:
+            obj = cls.__new__(cls) if raw else cls(**kw)
+        else:
+            # an attrs instance that is also a container: the members first, then the attrs fields
+            content = d.get("content", [])
+            if cbase is dict:
+                obj = cls.__new__(cls)
+                setter = collections.OrderedDict.__setitem__ if issubclass(cls, collections.OrderedDict) else dict.__setitem__
+                for kk, vv in content:
+                    setter(obj, atom_py(kk["atom"]["a"], reg, fam), atom_py(vv["atom"]["a"], reg, fam))
+            else:
+                members = [atom_py(m["atom"]["a"], reg, fam) for m in content]
+                if cbase is tuple:
+                    obj = tuple.__new__(cls, members)
+                else:
+                    obj = cls.__new__(cls)
+                    (list.extend if cbase is list else set.update)(obj, members)
+            if not raw:
+                obj.__init__(**kw)
         for n, v in later:
             setattr(obj, n, v)
         if d["hsh"] is not None:
@@ -499,6 +531,12 @@ def snapshot(v, fam=FAMILY0):
     t = type(v)
     if t in fam.cid:
         extra = tuple(sorted((k, repr(x)) for k, x in getattr(v, "__dict__", {}).items() if k == "_hv"))
+        if isinstance(v, dict):
+            extra += (("content", tuple((repr(a), repr(b)) for a, b in dict.items(v))),)
+        elif isinstance(v, (set, frozenset)):
+            extra += (("content", tuple(sorted(repr(i) for i in set(v)))),)
+        elif isinstance(v, (list, tuple)):
+            extra += (("content", tuple(repr(i) for i in v)),)
         return ("i", id(v), t.__name__, extra,
                 tuple(snapshot(getattr(v, f["name"]), fam) for f in CLS_FIELDS[fam.cid[t]]))
     if isinstance(v, (set, frozenset)):
@@ -832,13 +870,26 @@ class Gen:
     def inst(self, depth, cls=None, hashable=False, nostr=False):
         rng = self.rng
         if cls is None:
-            cls = rng.choice([5, 6, 11, 11] if hashable else [0, 0, 1, 1, 2, 3, 4, 5, 6, 7, 7, 8, 9, 10, 10, 11, 12])
+            cls = rng.choice([5, 6, 11, 11, 17, 17] if hashable else
+                             [0, 0, 1, 1, 2, 3, 4, 5, 6, 7, 7, 8, 9, 10, 10, 11, 12, 13, 13, 14, 14, 15, 16, 17, 18])
         hsh = None
         if cls in HASHABLE_CLS:
             hsh = rng.randrange(0, 64)
         # field values of an instance are unconstrained even when the instance itself is a key / set member
         fields = [[f, self.value(depth + 1, "field")] for f in CLS_FIELDS[cls]]
-        return {"inst": {"cls": cls, "hsh": hsh, "fields": fields}}
+        return self.mk_inst(cls, hsh, fields)
+
+    def mk_inst(self, cls, hsh, fields):
+        d = {"cls": cls, "hsh": hsh, "fields": fields}
+        base = CONTAINER_BASE.get(cls)
+        if base is not None:        # what the instance holds as a container (harness-only: the model ignores it)
+            n = self.rng.choice([0, 1, 2, 2, 3])
+            ks = self.rng.sample(range(50, 60), n)
+            if base is dict:
+                d["content"] = [[A_int(k), A_str(self.rng.randrange(12))] for k in ks]
+            else:
+                d["content"] = [A_int(k) for k in ks]
+        return {"inst": d}
 
     def value(self, depth, ctx):
         """ctx: field | member | key (hashable) | setmember (hashable, hash independent of the process)"""
@@ -915,8 +966,9 @@ class Gen:
 TYTAGS = ["int", "str", "noneType", "list", "tuple", "set", "frozenset", "dict", "odict",
           {"ntuple": {"ty": 0, "arity": 2}}, {"ntuple": {"ty": 1, "arity": 1}}, {"ntuple": {"ty": 0, "arity": 1}},
           {"cls": {"id": 0}}, {"cls": {"id": 1}}, {"cls": {"id": 5}}, {"cls": {"id": 3}}, {"cls": {"id": 7}},
-          {"cls": {"id": 7}}, {"cls": {"id": 8}}, {"cls": {"id": 10}}, {"cls": {"id": 11}}]
-NAMES = ["x", "y", "z", "_p", "q", "r", "a", "k", "m", "p", "nope", "w", "u"]
+          {"cls": {"id": 7}}, {"cls": {"id": 8}}, {"cls": {"id": 10}}, {"cls": {"id": 11}}, {"cls": {"id": 13}},
+          {"cls": {"id": 14}}, {"cls": {"id": 16}}]
+NAMES = ["x", "y", "z", "_p", "q", "r", "a", "k", "m", "p", "nope", "w", "u", "label", "owner", "tag"]
 
 
 def rand_filter(rng):
@@ -1089,7 +1141,7 @@ def add_history(case, rng):
 def targeted(g, rng):
     """small hand-shaped arguments around the places where the two conversion sites must agree"""
     v = g.value
-    pick = rng.randrange(13)
+    pick = rng.randrange(14)
     d = 2
     if pick == 0:    # namedtuples nested in collections / namedtuples (retain)
         inner = nt(rng.randrange(2), [v(d, "member") for _ in range(rng.choice([0, 2, 2, 3]))])
@@ -1136,6 +1188,12 @@ def targeted(g, rng):
         tup = coll("tuple", [g.atom(), bad, g.atom()])
         return rng.choice([coll("list", [tup]), dct("dict", [(g.atom(), tup)]), coll("tuple", [tup]),
                            nt(0, [tup, g.atom()])])
+    if pick == 12:   # attrs instances that are also containers, below a field value
+        ci = lambda: g.inst(d, cls=rng.choice([13, 14, 15, 16, 18]))  # noqa: E731
+        hk = g.inst(d, cls=17)
+        return rng.choice([coll("list", [ci(), g.atom()]), coll("tuple", [ci()]), dct("dict", [(g.atom(), ci())]),
+                           dct("odict", [(hk, ci())]), coll("list", [dct("dict", [(g.atom(), coll("list", [ci()]))])]),
+                           nt(0, [ci(), ci()]), coll("set", [hk]), coll("list", [hk, coll("tuple", [hk])])])
     if pick == 10:   # empty containers of every kind
         return coll("list", [coll("tuple", []), coll("list", []), coll("set", []), coll("frozenset", []), nt(0, []),
                              dct("dict", []), dct("odict", []), g.inst(d, cls=4)])
@@ -1150,13 +1208,13 @@ def gen_cases(tier, rng):
         if r < 0.03:
             value = g.value(1, "member")           # mostly not an attrs instance
         elif r < 0.4:
-            cls = rng.choice([0, 1, 2, 3, 5, 6, 7, 8, 9, 10, 11, 12])
+            cls = rng.choice([0, 1, 2, 3, 5, 6, 7, 8, 9, 10, 11, 12, 13, 14, 16, 18])
             fields = [[f, targeted(g, rng) if rng.random() < 0.6 else g.value(2, "field")] for f in CLS_FIELDS[cls]]
-            value = {"inst": {"cls": cls, "hsh": rng.randrange(64) if cls in HASHABLE_CLS else None, "fields": fields}}
+            value = g.mk_inst(cls, rng.randrange(64) if cls in HASHABLE_CLS else None, fields)
         elif r < 0.5:                              # flat instances (round trip)
-            cls = rng.choice([0, 1, 2, 3, 4, 5, 7, 8, 9, 10, 12])
+            cls = rng.choice([0, 1, 2, 3, 4, 5, 7, 8, 9, 10, 12, 13, 14, 15, 16, 18])
             fields = [[f, g.atom()] for f in CLS_FIELDS[cls]]
-            value = {"inst": {"cls": cls, "hsh": rng.randrange(64) if cls in HASHABLE_CLS else None, "fields": fields}}
+            value = g.mk_inst(cls, rng.randrange(64) if cls in HASHABLE_CLS else None, fields)
         else:
             value = g.inst(0)
         case = rand_opts(rng, value)
